@@ -1,0 +1,97 @@
+//go:build verif
+
+package linking
+
+// Contracts for govc (see /verif/DESIGN.md §5 C05, C06, §4.4). Comment-only;
+// compiled only under the build tag "verif". Streams and hashers are ghost
+// objects described in /verif/contracts/external/stdlib.spec.
+
+// lid: the abstract identity of a link (its binary form is a function of it).
+//@ sort LinkId
+//@ ghost field datamodel.Link.lid LinkId
+//@ pure func lbin(l LinkId) string
+//@ pure func mklid(lp datamodel.LinkPrototype, d hash.Digest) LinkId
+//@ pure func protoOf(l LinkId) datamodel.LinkPrototype
+
+//@ interface datamodel.Link.Binary() (r)
+//@   assigns nothing
+//@   ensures r == lbin(recv.lid)
+//@ interface datamodel.Link.Prototype() (lp)
+//@   assigns nothing
+//@   ensures lp != nil && lp == protoOf(recv.lid)
+//@ interface datamodel.LinkPrototype.BuildLink(hashsum) (l)
+//@   assigns nothing
+//@   ensures l != nil && l.lid == mklid(recv, hash.dg(hashsum))
+
+// The configurable parts of a link system.
+//@ functype LinkSystem.DecoderChooser(lnk) (d, err)
+//@   assigns nothing
+//@   ensures err == nil ==> d != nil
+//@ pure func chosenEnc(chooser Func, lp datamodel.LinkPrototype) Func
+//@ pure func algOf(chooser Func, lp datamodel.LinkPrototype) hash.Alg
+//@ pure func encOf(e Func, v datamodel.Val) io.ByteSeq
+//@ functype LinkSystem.EncoderChooser(lp) (e, err)
+//@   assigns nothing
+//@   ensures err == nil ==> e != nil && e == chosenEnc(recv, lp)
+//@ functype LinkSystem.HasherChooser(lp) (h, err)
+//@   assigns h.fed
+//@   ensures err == nil ==> h != nil && fresh(h) && h.fed == 0 && hash.halg(h) == algOf(recv, lp) && h.mwa == nil
+//@ functype BlockReadOpener(lnkCtx, lnk) (r, err)
+//@   assigns r.pos
+//@   ensures err == nil ==> r != nil && fresh(r) && r.pos == 0 && r.teesink == nil
+//@ functype BlockWriteOpener(lnkCtx) (w, c, err)
+//@   assigns w.fed
+//@   ensures err == nil ==> w != nil && c != nil && w.fed == 0
+//@ ghost field BlockWriteCommitter.calls mathint mutable
+//@ functype BlockWriteCommitter(lnk) (err)
+//@   assigns recv.calls
+//@   ensures recv.calls == old(recv.calls) + 1
+//@ functype NodeReifier(lnkCtx, n, lsys) (r, err)
+//@   assigns nothing
+
+// A decoder reads a prefix of what remains in the reader it is given (through the tee, if it is
+// one: then the tee's sink is fed exactly the bytes consumed from the tee's source); when it
+// succeeds it has consumed the stream to its end (proved for the bundled decoders under C06).
+//@ functype codec.Decoder(na, r) (err)
+//@   requires na != nil && r != nil
+//@   assigns r.pos, r.teesrc.pos, r.teesink.fed
+//@   ensures r.teesink == nil ==> old(r.pos) <= r.pos && r.pos <= io.blen(r.data) && (err == nil ==> r.pos == io.blen(r.data))
+//@   ensures r.teesink != nil ==> old(r.teesrc.pos) <= r.teesrc.pos && r.teesrc.pos <= io.blen(r.teesrc.data)
+//@   ensures r.teesink != nil ==> r.teesink.fed == old(r.teesink.fed) + (r.teesrc.pos - old(r.teesrc.pos)) && (err == nil ==> r.teesrc.pos == io.blen(r.teesrc.data))
+// An encoder writes a byte string that is a function of the node's value alone; through a
+// two-way io.MultiWriter both sinks receive it.
+//@ functype codec.Encoder(n, w) (err)
+//@   requires n != nil && w != nil
+//@   assigns w.fed, w.fedof, w.mwa.fed, w.mwa.fedof, w.mwb.fed, w.mwb.fedof
+//@   ensures err == nil && old(w.fed) == 0 ==> w.fedof == encOf(recv, n.val) && w.fed == io.blen(encOf(recv, n.val))
+//@   ensures err == nil && w.mwa != nil && old(w.mwa.fed) == 0 ==> w.mwa.fedof == encOf(recv, n.val) && w.mwa.fed == io.blen(encOf(recv, n.val))
+//@   ensures err == nil && w.mwb != nil && old(w.mwb.fed) == 0 ==> w.mwb.fedof == encOf(recv, n.val) && w.mwb.fed == io.blen(encOf(recv, n.val))
+
+// ---- Fill: nothing is accepted unless the whole block hashes to the link ----
+
+//@ func (*LinkSystem).Fill(lnkCtx, lnk, na) (err)
+//@   requires lsys != nil && lnk != nil && na != nil && lsys.DecoderChooser != nil && lsys.HasherChooser != nil
+//@   ensures[C06] !lsys.TrustedStorage && err == nil ==> decodeErr == nil && reader.pos == io.blen(reader.data) && hasher.fed == io.blen(reader.data) && hasher.fedof == reader.data
+//@   ensures[C06] !lsys.TrustedStorage && err == nil ==> lbin(lnk2.lid) == lbin(lnk.lid) && lnk2.lid == mklid(protoOf(lnk.lid), hash.hd(hash.halg(hasher), reader.data, io.blen(reader.data)))
+//@   ensures[C06] !lsys.TrustedStorage && decodeErr != nil && reader.pos == io.blen(reader.data) ==> hasher.fed == io.blen(reader.data) && hasher.fedof == reader.data && (iserr(err, "ErrHashMismatch") || lbin(lnk2.lid) == lbin(lnk.lid))
+//@   ensures[C06] !lsys.TrustedStorage && lbin(lnk2.lid) != lbin(lnk.lid) ==> iserr(err, "ErrHashMismatch") && hasher.fed == io.blen(reader.data)
+
+//@ func (*LinkSystem).LoadRaw(lnkCtx, lnk) (r, err)
+//@   requires lsys != nil && lnk != nil && lsys.HasherChooser != nil
+//@   ensures[C06] err == nil ==> reader.pos == io.blen(reader.data) && hasher.fed == io.blen(reader.data) && hasher.fedof == reader.data
+//@   ensures[C06] err == nil ==> lbin(lnk2.lid) == lbin(lnk.lid) && lnk2.lid == mklid(protoOf(lnk.lid), hash.hd(hash.halg(hasher), reader.data, io.blen(reader.data)))
+//@   ensures[C06] err == nil ==> len(r) == io.blen(reader.data) && hash.bsrc(r) == reader.data
+//@   ensures[C06] err != nil ==> r == nil
+
+// ---- Store == ComputeLink; the link is a function of prototype, value and configuration ----
+
+//@ func (*LinkSystem).ComputeLink(lp, n) (l, err)
+//@   requires lsys != nil && lp != nil && n != nil && lsys.EncoderChooser != nil && lsys.HasherChooser != nil
+//@   ensures[C05] err == nil ==> l != nil && l.lid == mklid(lp, hash.hd(algOf(lsys.HasherChooser, lp), encOf(chosenEnc(lsys.EncoderChooser, lp), n.val), io.blen(encOf(chosenEnc(lsys.EncoderChooser, lp), n.val))))
+
+//@ func (*LinkSystem).Store(lnkCtx, lp, n) (l, err)
+//@   requires lsys != nil && lp != nil && n != nil && lsys.EncoderChooser != nil && lsys.HasherChooser != nil
+//@   before commitFn assert[C05,C06] carg0 == lnk && writer.fedof == encOf(chosenEnc(lsys.EncoderChooser, lp), n.val) && writer.fed == io.blen(encOf(chosenEnc(lsys.EncoderChooser, lp), n.val))
+//@   ensures[C05] l != nil ==> l.lid == mklid(lp, hash.hd(algOf(lsys.HasherChooser, lp), encOf(chosenEnc(lsys.EncoderChooser, lp), n.val), io.blen(encOf(chosenEnc(lsys.EncoderChooser, lp), n.val))))
+//@   ensures[C05,C06] l != nil ==> commitFn.calls == old(commitFn.calls) + 1
+//@   ensures[C06] l == nil && commitFn != nil ==> commitFn.calls == old(commitFn.calls)
